@@ -500,6 +500,9 @@ def call_np(it, name, pos, kw):
         return N.elementwise(ctx, f, [_maybe_arr(it, pos[0]), _maybe_arr(it, pos[1])])
     if name in ("abs", "absolute"):
         return N.elementwise(ctx, T.sabs, [_maybe_arr(it, pos[0])])
+    if name in ("mod", "remainder") and len(pos) == 2 and not kw and T.is_scalar(pos[0]) and T.is_scalar(pos[1]) \
+            and not isinstance(pos[0], Arr) and not isinstance(pos[1], Arr):
+        return T.mod(pos[0], pos[1])  # integer scalars: Python's % (sign of the divisor), as NumPy defines it
     if name == "isfinite":
         a = pos[0]
         if isinstance(a, Arr):
